@@ -114,3 +114,76 @@ def search_forward_mismatch(xml, which, tries=30, seed=0):
     if issues:
       return {'reproduced': True, 'xml': x2, 'q': list(map(float, q)), 'qd': list(map(float, qd)), 'mismatch_vs_mujoco': issues}
   return {'reproduced': False}
+
+
+# ---- C02: generalized dynamics vs MuJoCo ----------------------------------------------------------------------------------------
+def dynamics_vs_mujoco(n_models, n_states, seed, tol=1e-7):
+  import mujoco
+  from brax.io import mjcf
+  from brax.generalized import pipeline, dynamics
+  from brax import actuator
+  rng = np.random.RandomState(seed + 211)
+  evals = 0
+  distinct = set()
+  worst = {}
+  for k in range(n_models):
+    spec = modelgen.Spec(limits_p=0.0, n_links=(1, 5), collide=False, plane=False)
+    xml, meta = modelgen.generate(rng, spec)
+    sys = mjcf.loads(xml)
+    sys = sys.replace(matrix_inv_iterations=0)
+    m = mj_model(xml)
+    for s in range(n_states):
+      q, qd = modelgen.rand_state(rng, sys, 1.5, 1.0)
+      ctrl = rng.uniform(-2, 2, sys.act_size())
+      st = pipeline.init(sys, jp.asarray(q), jp.asarray(qd))
+      d = mujoco.MjData(m)
+      d.qpos[:], d.qvel[:] = q, qd
+      d.ctrl[:] = ctrl
+      mujoco.mj_forward(m, d)
+      M = np.zeros((m.nv, m.nv))
+      for c_ in range(m.nv):          # inertia matrix column by column (mj_mulM is stable across MuJoCo versions)
+        e_, r_ = np.zeros(m.nv), np.zeros(m.nv)
+        e_[c_] = 1.0
+        mujoco.mj_mulM(m, d, r_, e_)
+        M[:, c_] = r_
+      tau = actuator.to_tau(sys, jp.asarray(ctrl), st.q, st.qd)
+      got = {'mass_mx': np.asarray(st.mass_mx), 'bias': np.asarray(dynamics.inverse(sys, st)), 'passive': np.asarray(dynamics._passive(sys, st)),
+             'actuator': np.asarray(tau), 'smooth': np.asarray(dynamics.forward(sys, st, tau))}
+      want = {'mass_mx': M, 'bias': d.qfrc_bias.copy(), 'passive': d.qfrc_passive.copy(), 'actuator': d.qfrc_actuator.copy(), 'smooth': d.qfrc_smooth.copy()}
+      evals += 1
+      distinct.add((k, s))
+      issues = []
+      for nm in got:
+        sc = max(1.0, float(np.abs(want[nm]).max()) if want[nm].size else 1.0)
+        e = float(np.abs(got[nm] - want[nm]).max()) / sc if want[nm].size else 0.0
+        worst[nm] = max(worst.get(nm, 0.0), e)
+        if not np.isfinite(e) or e > tol:
+          issues.append((nm, e))
+      ev = np.linalg.eigvalsh(got['mass_mx']) if m.nv else np.array([1.0])
+      if not np.allclose(got['mass_mx'], got['mass_mx'].T, atol=1e-12) or ev.min() <= 0:
+        issues.append(('mass_mx not symmetric positive definite', float(ev.min())))
+      # one step, no contact / limit
+      st2 = pipeline.step(sys, st, jp.asarray(ctrl))
+      mujoco.mj_step(m, d)
+      qe = float(np.abs(np.asarray(st2.q) - d.qpos).max()) if m.nq else 0.0
+      # free-joint quaternions: compare up to sign
+      if qe > tol:
+        qq, mq = np.asarray(st2.q).copy(), d.qpos.copy()
+        qi = 0
+        for t in sys.link_types:
+          if t == 'f':
+            if np.abs(qq[qi + 3:qi + 7] + mq[qi + 3:qi + 7]).max() < np.abs(qq[qi + 3:qi + 7] - mq[qi + 3:qi + 7]).max():
+              qq[qi + 3:qi + 7] *= -1
+            qi += 7
+          else:
+            qi += int(t)
+        qe = float(np.abs(qq - mq).max())
+      ve = float(np.abs(np.asarray(st2.qd) - d.qvel).max()) if m.nv else 0.0
+      worst['step_q'], worst['step_qd'] = max(worst.get('step_q', 0), qe), max(worst.get('step_qd', 0), ve)
+      if qe > 1e-6 or ve > 1e-6:
+        issues.append(('step', (qe, ve)))
+      if issues:
+        return Result(REFUTED, 'generalized dynamics differ from MuJoCo: %s (model %d, types %s)' % (issues, k, sys.link_types), witness={'xml': xml, 'q': list(map(float, q)), 'qd': list(map(float, qd)), 'ctrl': list(map(float, ctrl))},
+                      replay={'reproduced': True, 'issues': [(a, b) for a, b in issues], 'xml': xml, 'q': list(map(float, q)), 'qd': list(map(float, qd))})
+  return Result(PROVED, 'bounded: %d model-states agree with MuJoCo (mass matrix SPD and equal, bias, passive, actuator, smooth force, one Euler step); worst relative errors %s'
+                % (evals, {k_: '%.1e' % v for k_, v in worst.items()}), stats={'evaluations': evals, 'distinct_nontrivial': len(distinct)})
